@@ -190,119 +190,132 @@ func TestC19FormAPI(t *testing.T) {
 			}
 		}
 		ev.Case(nt, caseStr, classes...)
-		fail := func(format string, args ...any) {
-			ev.Failf(rt, "%s\n%s", caseStr, fmt.Sprintf(format, args...))
-		}
+		runFormCase(rt, d, plans, ops, caseStr)
+	})
+}
 
-		set := map[string]any{}
-		for _, o := range ops {
-			var ok bool
-			var err error
-			if pn := ev.Guard(func() { ok, err = d.Set(o.ID, o.Val) }); pn != "" {
-				fail("Set(%q, %s) panicked: %s", o.ID, o.Desc, pn)
-			}
-			wantOK, wantErr := setContract(typeOf[o.ID], o.Val)
-			if (err != nil) != wantErr || ok != wantOK {
-				fail("Set(%q, %s) on a field of type %q = (%v, %v); documented: ok=%v, error=%v", o.ID, o.Desc, typeOf[o.ID], ok, err, wantOK, wantErr)
-			}
-			if err == nil {
-				set[o.ID] = o.Val
-			}
-			// the typed getters never panic, whatever is stored
-			if pn := ev.Guard(func() {
-				d.Get(o.ID)
-				d.GetString(o.ID)
-				d.GetStrings(o.ID)
-				d.GetBool(o.ID)
-				d.GetJID(o.ID)
-				d.GetJIDs(o.ID)
-				d.Raw(o.ID)
-				d.GetOptions(o.ID)
-				d.Len()
-			}); pn != "" {
-				fail("a getter panicked after Set(%q, %s): %s", o.ID, o.Desc, pn)
-			}
-			if v, ok := d.Get(o.ID); err == nil && (!ok || fmt.Sprintf("%v", v) != fmt.Sprintf("%v", o.Val)) {
-				fail("Get(%q) after a successful Set(%s) = (%v, %v)", o.ID, o.Desc, v, ok)
-			}
+// runFormCase applies ops to d (built as recorded in plans), submits, and
+// checks the submission; shared by the rapid property and the regressions.
+func runFormCase(t fataler, d *form.Data, plans []fieldPlan, ops []setOp, caseStr string) {
+	t.Helper()
+	typeOf := map[string]form.FieldType{}
+	for _, p := range plans {
+		if _, dup := typeOf[p.ID]; !dup {
+			typeOf[p.ID] = p.Typ
 		}
-		for _, p := range plans {
-			if pn := ev.Guard(func() { d.Get(p.ID); d.GetString(p.ID); d.GetStrings(p.ID); d.GetJIDs(p.ID); d.GetOptions(p.ID) }); pn != "" {
-				fail("a getter panicked for field %q: %s", p.ID, pn)
-			}
-		}
+	}
+	fail := func(format string, args ...any) {
+		ev.Failf(t, "%s\n%s", caseStr, fmt.Sprintf(format, args...))
+	}
 
-		var sub xml.TokenReader
-		var subOK bool
-		if pn := ev.Guard(func() { sub, subOK = d.Submit() }); pn != "" {
-			fail("Submit panicked: %s", pn)
-		}
-		var data []byte
-		var c canon
+	set := map[string]any{}
+	for _, o := range ops {
+		var ok bool
 		var err error
-		if pn := ev.Guard(func() { data, c, err = readSubmission(sub) }); pn != "" {
-			fail("reading the submission panicked: %s", pn)
+		if pn := ev.Guard(func() { ok, err = d.Set(o.ID, o.Val) }); pn != "" {
+			fail("Set(%q, %s) panicked: %s", o.ID, o.Desc, pn)
 		}
-		if err != nil {
-			fail("the submission is not well-formed: %v\noutput: %q", err, data)
+		wantOK, wantErr := setContract(typeOf[o.ID], o.Val)
+		if (err != nil) != wantErr || ok != wantOK {
+			fail("Set(%q, %s) on a field of type %q = (%v, %v); documented: ok=%v, error=%v", o.ID, o.Desc, typeOf[o.ID], ok, err, wantOK, wantErr)
 		}
-		if len(c.roots) != 1 || c.roots[0].space != form.NS || c.roots[0].local != "x" {
-			fail("the submission is not a single jabber:x:data form: %q", data)
+		if err == nil {
+			set[o.ID] = o.Val
 		}
-		if !strings.Contains(strings.Join(c.roots[0].attrs, " "), `{}type="submit"`) {
-			fail("the submission is not of type submit: %q", data)
+		// the typed getters never panic, whatever is stored
+		if pn := ev.Guard(func() {
+			d.Get(o.ID)
+			d.GetString(o.ID)
+			d.GetStrings(o.ID)
+			d.GetBool(o.ID)
+			d.GetJID(o.ID)
+			d.GetJIDs(o.ID)
+			d.Raw(o.ID)
+			d.GetOptions(o.ID)
+			d.Len()
+		}); pn != "" {
+			fail("a getter panicked after Set(%q, %s): %s", o.ID, o.Desc, pn)
 		}
-		anyRequired := false
-		for _, p := range plans {
-			for _, o := range p.Opts {
-				anyRequired = anyRequired || o == "Required"
-			}
+		if v, ok := d.Get(o.ID); err == nil && (!ok || fmt.Sprintf("%v", v) != fmt.Sprintf("%v", o.Val)) {
+			fail("Get(%q) after a successful Set(%s) = (%v, %v)", o.ID, o.Desc, v, ok)
 		}
-		if !anyRequired && !subOK {
-			fail("Submit reported ok=false although no field is required")
+	}
+	for _, p := range plans {
+		if pn := ev.Guard(func() { d.Get(p.ID); d.GetString(p.ID); d.GetStrings(p.ID); d.GetJIDs(p.ID); d.GetOptions(p.ID) }); pn != "" {
+			fail("a getter panicked for field %q: %s", p.ID, pn)
 		}
-		var d2 form.Data
-		if pn := ev.Guard(func() { err = xml.Unmarshal(data, &d2) }); pn != "" {
-			fail("decoding the submission panicked: %s\nsubmission: %q", pn, data)
+	}
+
+	var sub xml.TokenReader
+	var subOK bool
+	if pn := ev.Guard(func() { sub, subOK = d.Submit() }); pn != "" {
+		fail("Submit panicked: %s", pn)
+	}
+	var data []byte
+	var c canon
+	var err error
+	if pn := ev.Guard(func() { data, c, err = readSubmission(sub) }); pn != "" {
+		fail("reading the submission panicked: %s", pn)
+	}
+	if err != nil {
+		fail("the submission is not well-formed: %v\noutput: %q", err, data)
+	}
+	if len(c.roots) != 1 || c.roots[0].space != form.NS || c.roots[0].local != "x" {
+		fail("the submission is not a single jabber:x:data form: %q", data)
+	}
+	if !strings.Contains(strings.Join(c.roots[0].attrs, " "), `{}type="submit"`) {
+		fail("the submission is not of type submit: %q", data)
+	}
+	anyRequired := false
+	for _, p := range plans {
+		for _, o := range p.Opts {
+			anyRequired = anyRequired || o == "Required"
 		}
-		if err != nil {
-			fail("the submission does not decode as a form: %v\nsubmission: %q", err, data)
+	}
+	if !anyRequired && !subOK {
+		fail("Submit reported ok=false although no field is required")
+	}
+	var d2 form.Data
+	if pn := ev.Guard(func() { err = xml.Unmarshal(data, &d2) }); pn != "" {
+		fail("decoding the submission panicked: %s\nsubmission: %q", pn, data)
+	}
+	if err != nil {
+		fail("the submission does not decode as a form: %v\nsubmission: %q", err, data)
+	}
+	for id, v := range set {
+		typ, exists := typeOf[id]
+		if !exists || typ == form.TypeFixed {
+			continue
 		}
-		for id, v := range set {
-			typ, exists := typeOf[id]
-			if !exists || typ == form.TypeFixed {
-				continue
-			}
-			want := wantSubmitted(typ, v)
-			got, _ := d2.Raw(id)
-			if strings.Join(want, "\x00") != strings.Join(got, "\x00") || len(want) != len(got) {
-				fail("field %q (%s) was set to %v but the submission carries %q, want %q\nsubmission: %q", id, typ, v, got, want, data)
-			}
+		want := wantSubmitted(typ, v)
+		got, _ := d2.Raw(id)
+		if strings.Join(want, "\x00") != strings.Join(got, "\x00") || len(want) != len(got) {
+			fail("field %q (%s) was set to %v but the submission carries %q, want %q\nsubmission: %q", id, typ, v, got, want, data)
 		}
-		// the decoded submission is a form value like any other
-		var data3 []byte
-		if pn := ev.Guard(func() { data3, err = xml.Marshal(&d2) }); pn != "" {
-			fail("encoding the decoded submission panicked: %s\nsubmission: %q", pn, data)
+	}
+	// the decoded submission is a form value like any other
+	var data3 []byte
+	if pn := ev.Guard(func() { data3, err = xml.Marshal(&d2) }); pn != "" {
+		fail("encoding the decoded submission panicked: %s\nsubmission: %q", pn, data)
+	}
+	if err != nil {
+		fail("encoding the decoded submission failed: %v", err)
+	}
+	if _, err := canonFromBytes(data3); err != nil {
+		fail("the re-encoded submission is not well-formed: %v: %q", err, data3)
+	}
+	var d3 form.Data
+	if err := xml.Unmarshal(data3, &d3); err != nil {
+		fail("the re-encoded submission does not decode: %v: %q", err, data3)
+	}
+	d3.ForFields(func(f form.FieldData) {
+		if f.Var == "" {
+			return
 		}
-		if err != nil {
-			fail("encoding the decoded submission failed: %v", err)
+		before, _ := d2.Raw(f.Var)
+		if strings.Join(before, "\x00") != strings.Join(f.Raw, "\x00") {
+			fail("re-encoding the decoded submission changed field %q from %q to %q\nfirst: %q\nsecond: %q", f.Var, before, f.Raw, data, data3)
 		}
-		if _, err := canonFromBytes(data3); err != nil {
-			fail("the re-encoded submission is not well-formed: %v: %q", err, data3)
-		}
-		var d3 form.Data
-		if err := xml.Unmarshal(data3, &d3); err != nil {
-			fail("the re-encoded submission does not decode: %v: %q", err, data3)
-		}
-		d3.ForFields(func(f form.FieldData) {
-			if f.Var == "" {
-				return
-			}
-			before, _ := d2.Raw(f.Var)
-			if strings.Join(before, "\x00") != strings.Join(f.Raw, "\x00") {
-				fail("re-encoding the decoded submission changed field %q from %q to %q\nfirst: %q\nsecond: %q", f.Var, before, f.Raw, data, data3)
-			}
-		})
 	})
 }
 
